@@ -407,7 +407,10 @@ def defaultExprPool : List (Toks × ExprClass) :=
    (["K", "as", "u8"], .other), (["&", "K"], .other), (["mac", "!", "(", ")"], .other), (["X", "::", "new", "(", ")"], .other),
    (["[", "1", ",", "2", "]"], .other), (["{", "1", "}", "+", "1"], .blockLead), (["{", "K", "}", "as", "u8"], .blockLead),
    (["if", "true", "{", "K", "}", "else", "{", "K", "}", ".", "f", "(", ")"], .blockLead), (["match", "K", "{", "_", "=>", "K", "}", "?"], .blockLead),
-   (["unsafe", "{", "K", "}", "[", "0", "]"], .blockLead), (["{", "K", "}", "(", ")"], .blockLead), (["{", "1", "}", "..", "2"], .blockLead), (["1", "+", "2"], .other), (["E", "::", "A"], .path), (["T", "::", "default", "(", ")"], .other)]
+   (["unsafe", "{", "K", "}", "[", "0", "]"], .blockLead), (["{", "K", "}", "(", ")"], .blockLead), (["{", "1", "}", "..", "2"], .blockLead), (["1", "+", "2"], .other), (["E", "::", "A"], .path), (["T", "::", "default", "(", ")"], .other),
+   -- paths with generic arguments are paths; a parenthesized literal is not a literal
+   (["Vec", "::", "<", "u8", ">", "::", "new"], .path), (["Foo", "::", "<", "{", "1", "}", ">", "::", "K"], .path),
+   (["(", "\"s\"", ")"], .other), (["c\"cstr\""], .other), (["1.5e3"], .other), (["\"s\"", ".", "len", "(", ")"], .other)]
 
 def genDefaultAttrs (cfg : GCfg) (marker : Nat) (withValue : Bool) : Gen (List Attr) := do
   if !(← chance cfg.defaultAttrPct 100) then pure [] else
